@@ -506,6 +506,70 @@ func (c *FuncCtx) specBuiltin(st *State, name string, x *ast.CallExpr) ([]*Val, 
 		if v, ok := st.bound["$result"]; ok {
 			return []*Val{v}, true
 		}
+	case "use":
+		// use(factName, t1, t2, ...): one instance of a named axiom or lemma
+		id, ok := x.Args[0].(*ast.Ident)
+		if !ok {
+			limitf("use: first argument must be the name of an axiom or lemma")
+		}
+		var fa *Fact
+		for _, f := range c.eng.spec.Facts {
+			if f.Name == id.Name {
+				fa = f
+			}
+		}
+		if fa == nil {
+			limitf("use: no axiom or lemma named %s", id.Name)
+		}
+		var names []string
+		var ptypes []types.Type
+		for _, f := range fa.Vars {
+			t := c.resolveSpecType(f.Type)
+			for _, n := range f.Names {
+				names = append(names, n.Name)
+				ptypes = append(ptypes, t)
+			}
+		}
+		if len(names) != len(x.Args)-1 {
+			limitf("use(%s): %d terms for %d variables", id.Name, len(x.Args)-1, len(names))
+		}
+		vals := make([]*Val, len(names))
+		for i := range names {
+			vals[i] = c.coerce(st, c.eval(st, x.Args[i+1]), ptypes[i])
+		}
+		saved := st.bound
+		nb := map[string]*Val{}
+		for k, v := range saved {
+			if strings.HasPrefix(k, "$") {
+				nb[k] = v
+			}
+		}
+		for i, n := range names {
+			nb[n] = vals[i]
+		}
+		nb["$spec"] = &Val{S: "1"}
+		st.bound = nb
+		g0 := st.guard
+		st.guard = nil
+		v := c.eval(st, fa.Expr)
+		st.assume(v.S)
+		st.guard = g0
+		st.bound = saved
+		return b(tTrue), true
+	case "nrunes":
+		v := c.eval(st, x.Args[0])
+		c.eng.declareUF("nrunes", "(declare-fun nrunes (String) Int)")
+		return []*Val{{T: tInt, S: app("nrunes", v.S), Sort: "Int"}}, true
+	case "runeAt", "runeOffset":
+		v := c.eval(st, x.Args[0])
+		k := c.eval(st, x.Args[1])
+		uf := map[string]string{"runeAt": "runeSeq", "runeOffset": "runeOff"}[name]
+		c.eng.declareUF(uf, fmt.Sprintf("(declare-fun %s (String) (Array Int Int))", uf))
+		t := types.Type(tRune)
+		if name == "runeOffset" {
+			t = tInt
+		}
+		return []*Val{{T: t, S: mkSel(app(uf, v.S), k.S), Sort: "Int"}}, true
 	case "ncalls", "callarg":
 		return c.traceBuiltin(st, name, x)
 	case "fst", "snd":
@@ -941,6 +1005,7 @@ func headerResults(con *Contract) []string {
 func (c *FuncCtx) applyContract(st *State, con *Contract, sig *types.Signature, recv *Val, args []*Val, pos token.Pos, key string) []*Val {
 	saved := st.bound
 	savedOld := st.old
+	specCall := c.inSpec(st) // a call written inside a specification
 	nb := bindHeader(con, recv, args)
 	for k, v := range saved {
 		if strings.HasPrefix(k, "$") && k != "$spec" && k != "$pos" {
@@ -952,16 +1017,23 @@ func (c *FuncCtx) applyContract(st *State, con *Contract, sig *types.Signature, 
 	pre := st.clone()
 	pre.old = nil
 	st.old = pre
-	// lets (pre-state)
-	for _, cl := range con.clauses("let") {
-		c.bindLet(st, cl, st.bound)
-	}
-	for i, cl := range con.clauses("requires") {
-		v := c.eval(st, cl.Expr)
-		delete(st.bound, "$spec")
-		c.oblige(st, "pre", fmt.Sprintf("call@%s.%s.pre%d", c.anchor(pos), key, i+1), pos, v.S, nil, "requires "+cl.Text)
-		st.bound["$spec"] = &Val{S: "1"}
-		st.assume(v.S)
+	// lets and preconditions, in file order (pre-state)
+	nreq := 0
+	for _, cl := range con.Clauses {
+		switch cl.Kind {
+		case "let":
+			c.bindLet(st, cl, st.bound)
+		case "requires":
+			nreq++
+			v := c.eval(st, cl.Expr)
+			if specCall {
+				continue // specifications are total: no obligation, no assumption
+			}
+			delete(st.bound, "$spec")
+			c.oblige(st, "pre", fmt.Sprintf("call@%s.%s.pre%d", c.anchor(pos), key, nreq), pos, v.S, nil, "requires "+cl.Text)
+			st.bound["$spec"] = &Val{S: "1"}
+			st.assume(v.S)
+		}
 	}
 	// ghost trace of this call
 	if con.Traced {
@@ -1023,6 +1095,15 @@ func (c *FuncCtx) applyContract(st *State, con *Contract, sig *types.Signature, 
 	for _, cl := range con.clauses("ensures") {
 		v := c.eval(st, cl.Expr)
 		st.assume(v.S)
+	}
+	if len(con.clauses("like")) > 0 {
+		env := map[string]*Val{}
+		for k, v := range st.bound {
+			if !strings.HasPrefix(k, "$") {
+				env[k] = v
+			}
+		}
+		c.likeClauses(st, con, env, results, func(cl *Clause, idx int, f, text string) { st.assume(f) })
 	}
 	st.bound = saved
 	st.old = savedOld
@@ -1317,6 +1398,103 @@ func (c *FuncCtx) bindLet(st *State, cl *Clause, env map[string]*Val) {
 	for i, n := range names {
 		if n != "_" {
 			env[n] = vs[i]
+		}
+	}
+}
+
+// likeClauses expands "like Callee(args...) when cond": the callee's ensures
+// clauses, instantiated with the given arguments (evaluated in the pre-state)
+// and with the callee's result names bound to this function's results, each
+// guarded by cond (also a pre-state condition).  emit receives the guarded
+// formula of every inherited clause.
+func (c *FuncCtx) likeClauses(st *State, con *Contract, env map[string]*Val, results []*Val, emit func(cl *Clause, idx int, formula string, text string)) {
+	for li, lk := range con.clauses("like") {
+		key := traceNameOf(lk.Like.Fun)
+		callee := c.eng.spec.Contracts[key]
+		if callee == nil {
+			limitf("like: no contract named %s", key)
+		}
+		// pre-state evaluation of condition and arguments
+		saved := st.bound
+		nb := map[string]*Val{"$spec": {S: "1"}}
+		for k, v := range saved {
+			if strings.HasPrefix(k, "$") {
+				nb[k] = v
+			}
+		}
+		for k, v := range env {
+			nb[k] = v
+		}
+		st.bound = nb
+		cond := c.evalOld(st, lk.Expr)
+		var args []*Val
+		for _, a := range lk.Like.Args {
+			args = append(args, c.evalOld(st, a))
+		}
+		st.bound = saved
+		var recv *Val
+		if callee.Decl.Recv != nil {
+			if len(args) == 0 {
+				limitf("like %s: receiver argument missing", key)
+			}
+			recv, args = args[0], args[1:]
+		}
+		// coerce to the callee's parameter types where known
+		if fd, ok := c.eng.funcs[key]; ok {
+			sig := c.eng.info.Defs[fd.Name].(*types.Func).Type().(*types.Signature)
+			for i := range args {
+				if i < sig.Params().Len() {
+					args[i] = c.coerce(st, args[i], sig.Params().At(i).Type())
+				}
+			}
+		}
+		env2 := bindHeader(callee, recv, args)
+		names := headerResults(callee)
+		for i, n := range names {
+			if n != "" && i < len(results) {
+				env2[n] = results[i]
+			}
+		}
+		if len(results) == 1 {
+			env2["$result"] = results[0]
+		}
+		// callee lets: pre-state
+		for _, cl := range callee.clauses("let") {
+			saved := st.bound
+			nb := map[string]*Val{"$spec": {S: "1"}}
+			for k, v := range env2 {
+				nb[k] = v
+			}
+			st.bound = nb
+			// evaluate in the pre-state
+			tmp := st.old.clone()
+			tmp.bound = nb
+			tmp.pc = st.pc
+			tmp.facts = st.facts
+			tmp.old = st.old
+			c.bindLet(tmp, cl, env2)
+			st.pc = tmp.pc
+			st.bound = saved
+		}
+		for ei, cl := range callee.clauses("ensures") {
+			saved := st.bound
+			nb := map[string]*Val{"$spec": {S: "1"}}
+			for k, v := range saved {
+				if k == "$pos" {
+					nb[k] = v
+				}
+			}
+			for k, v := range env2 {
+				nb[k] = v
+			}
+			st.bound = nb
+			v := c.eval(st, cl.Expr)
+			st.bound = saved
+			tags := lk.Tags
+			if len(tags) == 0 {
+				tags = cl.Tags
+			}
+			emit(&Clause{Kind: "ensures", Tags: tags, Text: cl.Text, Expr: cl.Expr, Line: lk.Line}, li*100+ei, mkImplies(cond.S, v.S), fmt.Sprintf("like %s: %s", lk.Text, cl.Text))
 		}
 	}
 }
